@@ -55,8 +55,8 @@ CASES += [
     m("raw parameters to the CP29 spectral density (the repaired defect)", "C09-E", S,
       "                    self._make_CP29_spectral_density(prms, values)", "                    self._make_CP29_spectral_density(params, values)"),
     m("Underdamped correlation function adds the unconverted reorganisation energy (the repaired defect)", "C09-E", C,
-      "        lamb = self.convert_energy_2_internal_u(params[\"reorg\"])\n        \n        time = self.axis #.data\n\n        if values is not None:\n            cfce = values\n        else:\n            fa = SpectralDensity(time, params)\n            cf = fa.get_CorrelationFunction(temperature=temperature)\n            cfce = cf.data\n           \n        self._add_me(self.axis, cfce)\n\n        # update reorganization energy\n        self.lamb += lamb\n        \n        # check temperature and update cutoff time\n        self._set_temperature_and_cutoff_time(temperature, 5.0*ctime) \n        \n\n\n\n    def _make_B777",
-      "        lamb = params[\"reorg\"]\n        \n        time = self.axis #.data\n\n        if values is not None:\n            cfce = values\n        else:\n            fa = SpectralDensity(time, params)\n            cf = fa.get_CorrelationFunction(temperature=temperature)\n            cfce = cf.data\n           \n        self._add_me(self.axis, cfce)\n\n        # update reorganization energy\n        self.lamb += lamb\n        \n        # check temperature and update cutoff time\n        self._set_temperature_and_cutoff_time(temperature, 5.0*ctime) \n        \n\n\n\n    def _make_B777"),
+      "        ctime = params[\"gamma\"]\n        \n        # use the units in which params was defined\n        lamb = self.convert_energy_2_internal_u(params[\"reorg\"])\n        time = self.axis #.data\n\n        if values is not None:\n            cfce = values\n        else:\n            # Make it via SpectralDensity\n            fa = SpectralDensity(time, params)\n            \n            cf = fa.get_CorrelationFunction(temperature=temperature)\n            \n            cfce = cf.data\n\n         # this is a call",
+      "        ctime = params[\"gamma\"]\n        \n        # use the units in which params was defined\n        lamb = params[\"reorg\"]\n        time = self.axis #.data\n\n        if values is not None:\n            cfce = values\n        else:\n            # Make it via SpectralDensity\n            fa = SpectralDensity(time, params)\n            \n            cf = fa.get_CorrelationFunction(temperature=temperature)\n            \n            cfce = cf.data\n\n         # this is a call"),
     m("overdamped correlation function built from a dictionary converted twice", "C09-E", C,
       "                        self._make_underdamped_brownian(prms) #, values=values)", "                        self._make_underdamped_brownian(params) #, values=values)"),
     m("self.energy_units again (the repaired defect)", "C09-D", C,
@@ -65,4 +65,15 @@ CASES += [
     m("CP29 overwrites again (the repaired defect)", "C09-C", S,
       "            self._add_me(self.axis, cfce)\n\n        # this component adds nothing to the zero-frequency limits\n        self.lamb += lamb",
       "            self._make_me(self.axis, cfce)\n\n        # this component adds nothing to the zero-frequency limits\n        self.lamb = lamb"),
+]
+
+CASES += [
+    m("running integral by a quadrature rule without the axis step", "C09-F", C,
+      "    splr = interp.UnivariateSpline(time.data,\n                                   preal, s=0).antiderivative()(time.data)",
+      "    import scipy.integrate\n    splr = scipy.integrate.cumulative_trapezoid(preal, initial=0.0)", 2),
+    t("running integral by a quadrature rule with the axis data", C,
+      "    splr = interp.UnivariateSpline(time.data,\n                                   preal, s=0).antiderivative()(time.data)",
+      "    import scipy.integrate\n    splr = scipy.integrate.cumulative_trapezoid(preal, x=time.data, initial=0.0)", 2),
+    m("values branch sums the reorganisation energies of the caller's dictionaries", "C09-E", C,
+      "                for prms in self.params:\n                    self.lamb += prms[\"reorg\"]", "                for prms in p2calc:\n                    self.lamb += prms[\"reorg\"]"),
 ]
